@@ -158,6 +158,14 @@ func (s *hSess) Send(d []byte) error {
 	s.outbox = append(s.outbox, qmsg{data: cp, batch: s.m.step})
 	s.sent++
 	s.mu.Unlock()
+	if s.m.logEmit {
+		s.m.mu.Lock()
+		if s.m.emitted == nil {
+			s.m.emitted = map[string][][]byte{}
+		}
+		s.m.emitted[s.name()] = append(s.m.emitted[s.name()], cp)
+		s.m.mu.Unlock()
+	}
 	return nil
 }
 
@@ -237,7 +245,10 @@ type mesh struct {
 	updIDs   map[string]string
 	epochs   map[string][]uint64 // node -> epochs in order of first appearance
 	mu       sync.Mutex
-	scripted map[string]bool // names that are scripted peers (no real node)
+	emitted  map[string][][]byte // every datagram ever sent on a link, in order (when logEmitted is set)
+	logEmit  bool
+	idOf     map[string]string   // mesh name -> node ID when they differ (same-ID twins)
+	scripted map[string]bool     // names that are scripted peers (no real node)
 	recvd    map[string][][]byte // what each scripted peer has received (delivered messages)
 }
 
@@ -257,9 +268,16 @@ func newMesh(consts meshConsts, names ...string) *mesh {
 	return m
 }
 
+func (m *mesh) nodeID(n string) string {
+	if id, ok := m.idOf[n]; ok {
+		return id
+	}
+	return n
+}
+
 func (m *mesh) start(n string) {
 	c := m.consts
-	nd := netceptor.NewWithConsts(context.Background(), n, c.mtu, c.routeTime, c.adTime, c.seenExpire, c.maxHops, c.idle)
+	nd := netceptor.NewWithConsts(context.Background(), m.nodeID(n), c.mtu, c.routeTime, c.adTime, c.seenExpire, c.maxHops, c.idle)
 	nd.Logger.SetOutput(io.Discard)
 	m.nodes[n] = nd
 	m.alive[n] = true
